@@ -720,9 +720,6 @@ fn model_reindent(text: &str, from: usize, to: usize) -> String {
 /// variable's text is moved from the indentation of the line it starts on to the indentation of
 /// its line in the template, and the whole is moved to the indentation of the matched line.
 fn model_replacement(fresh: &AstGrep<StrDoc<SupportLang>>, p: &Pattern<SupportLang>, fix: &str, pos: usize) -> Option<String> {
-  if fix.contains("$$") {
-    return None;
-  }
   let nm = fresh.root().find(p)?;
   if nm.range().start != pos {
     return None;
@@ -733,13 +730,26 @@ fn model_replacement(fresh: &AstGrep<StrDoc<SupportLang>>, p: &Pattern<SupportLa
   let fb = fix.as_bytes();
   let mut i = 0;
   while i < fb.len() {
-    if fb[i] == b'$' && i + 1 < fb.len() && (fb[i + 1].is_ascii_uppercase() || fb[i + 1] == b'_') {
-      let mut j = i + 1;
+    let multi = fix[i..].starts_with("$$$");
+    let name_at = if multi { i + 3 } else { i + 1 };
+    if fb[i] == b'$' && name_at < fb.len() && (fb[name_at].is_ascii_uppercase() || fb[name_at] == b'_') {
+      let mut j = name_at;
       while j < fb.len() && (fb[j].is_ascii_uppercase() || fb[j].is_ascii_digit() || fb[j] == b'_') {
         j += 1;
       }
-      let node = env.get_match(&fix[i + 1..j])?;
-      let r = node.range();
+      // `$$$NAME`: from the first to the last captured node, separators and all
+      let r = if multi {
+        let nodes = env.get_multiple_matches(&fix[name_at..j]);
+        match (nodes.first(), nodes.last()) {
+          (Some(a), Some(b)) => a.range().start..b.range().end,
+          _ => {
+            i = j;
+            continue;
+          }
+        }
+      } else {
+        env.get_match(&fix[name_at..j])?.range()
+      };
       let text = &src[r.clone()];
       if text.contains('\n') {
         out.push_str(&model_reindent(text, model_indent_at(&src[..r.start]), model_indent_at(&fix[..i])));
